@@ -135,6 +135,11 @@ class Result:
         self.too_many = False
 
 
+def is_result_chunk(item):
+    return isinstance(item, (tuple, list)) and len(item) == 2 and isinstance(item[1], list) and \
+        all(isinstance(v, list) and len(v) == 2 for v in item[1])
+
+
 def payload_items(q):
     out = []
     for it in q.pending():
@@ -342,12 +347,13 @@ def lifecycle_verdicts(case, res):
             out.append(("%s/until_all_ready-returned-before-begin-completed" % name, "before call %d workers %r had not completed begin()" % (ci, missing)))
     quota = case.get("quota")
     if quota is not None and res.ctx is not None:
-        rq = res.ctx.registry
-        results_q = [q for q in rq if isinstance(q, RecQueue)]
         counts = {}
-        if len(results_q) >= 2:
-            for who, item in results_q[1].history:
-                if item is not None:
+        for q in res.ctx.registry:
+            if not isinstance(q, RecQueue):
+                continue
+            for who, item in q.history:
+                # a delivered result chunk: (index, [f(x), ...]) put by a worker process task
+                if is_result_chunk(item) and res.sched.tasks[who].kind == "process":
                     counts[who] = counts.get(who, 0) + 1
         over = {w: c for w, c in counts.items() if c > quota}
         if over:
@@ -361,17 +367,16 @@ def labels_for(case, res):
     labs = set()
     ctx = res.ctx
     if ctx is not None:
-        rqs = [q for q in ctx.registry if isinstance(q, RecQueue)]
-        if len(rqs) >= 2:
-            per_call = {}
-            for who, item in rqs[1].history:
-                if isinstance(item, (tuple, list)) and len(item) == 2 and item[1]:
-                    first = item[1][0]
-                    ci = first[0] // 1000 if isinstance(first, list) else -1
-                    per_call.setdefault(ci, []).append(item[0])
-            for ci, idxs in per_call.items():
-                if idxs != sorted(idxs):
-                    labs.add("out-of-order-arrival")
+        per_call = {}
+        for q in ctx.registry:
+            if not isinstance(q, RecQueue):
+                continue
+            for who, item in q.history:
+                if is_result_chunk(item) and item[1]:
+                    per_call.setdefault(item[1][0][0] // 1000, []).append(item[0])
+        for ci, idxs in per_call.items():
+            if idxs != sorted(idxs):
+                labs.add("out-of-order-arrival")
     tr = res.sched.trace
     if any(w == "thr-event.clear" for _, w in tr):
         labs.add("flow-control-paused")
